@@ -229,3 +229,83 @@ fn gdispatch_moderate_is_lemire() {
     assert!(moderate_path::<f64>(&num) == lemire::<f64>(&num));
     assert!(moderate_path::<f32>(&num) == lemire::<f32>(&num));
 }
+
+// ---------------------------------------------------------------- C15 / C16 entry points
+// Entry harnesses whose GOTO programs are analysed statically (call-graph closure) for the
+// allocation frame (C15); they also serve as no-panic checks on tiny inputs.
+macro_rules! c15_entry {
+    ($name:ident, $t:ty) => {
+        #[kani::proof]
+        #[kani::unwind(4)]
+        fn $name() {
+            let int: [u8; 2] = any_digits();
+            let frac: [u8; 2] = any_digits();
+            let e: i32 = kani::any();
+            kani::assume(int[0] != b'0');
+            let x: $t = parse_float::<$t, _, _>(int.iter(), frac.iter(), e);
+            let _ = x;
+        }
+    };
+}
+c15_entry!(c15_entry_f64, f64);
+c15_entry!(c15_entry_f32, f32);
+
+// ---------------------------------------------------------------- C16: purity
+
+/// A hand-written cloneable forward iterator over a byte slice (not a std adaptor).
+#[derive(Clone)]
+struct Plain<'a> {
+    s: &'a [u8],
+    i: usize,
+}
+impl<'a> Iterator for Plain<'a> {
+    type Item = &'a u8;
+    fn next(&mut self) -> Option<&'a u8> {
+        if self.i < self.s.len() {
+            let r = &self.s[self.i];
+            self.i += 1;
+            Some(r)
+        } else {
+            None
+        }
+    }
+}
+
+fn always(_: &&u8) -> bool {
+    true
+}
+
+/// parse_number gives the identical Number whether the same digit bytes arrive through
+/// slice iterators, chained halves, an always-true filter, skip(0)/take(n), a hand-written
+/// iterator, or from a copy of the bytes at a different address.
+fn iter_shapes_case(ilen: usize, flen: usize) {
+    let int: [u8; 22] = any_digits();
+    let frac: [u8; 22] = any_digits();
+    let e: i32 = kani::any();
+    kani::assume(ilen == 0 || int[0] != b'0');
+    let a = parse_number(int[..ilen].iter(), frac[..flen].iter(), e);
+    let h = ilen / 2;
+    let b = parse_number(int[..h].iter().chain(int[h..ilen].iter()), frac[..flen].iter().filter(always), e);
+    assert!(a == b, "C16 chained / filtered iterators give the same Number");
+    let c = parse_number(int.iter().take(ilen).skip(0), Plain { s: &frac[..flen], i: 0 }, e);
+    assert!(a == c, "C16 take/skip and a hand-written iterator give the same Number");
+    let int2 = int;
+    let frac2 = frac;
+    let d = parse_number(int2[..ilen].iter(), frac2[..flen].iter(), e);
+    assert!(a == d, "C16 result independent of the buffer address");
+}
+
+#[kani::proof]
+#[kani::unwind(24)]
+fn c16_iter_shapes_parse_number_small() {
+    iter_shapes_case(0, 0);
+    iter_shapes_case(1, 0);
+    iter_shapes_case(0, 2);
+    iter_shapes_case(3, 2);
+}
+
+#[kani::proof]
+#[kani::unwind(24)]
+fn c16_iter_shapes_parse_number_20() {
+    iter_shapes_case(18, 3);
+}
